@@ -8,6 +8,7 @@ import (
 	"os/exec"
 	"path/filepath"
 	"strings"
+	"time"
 
 	"github.com/brutella/hc/accessory"
 	"github.com/brutella/hc/characteristic"
@@ -304,4 +305,102 @@ func c09OtherPlatforms(c *Ctx) {
 		}
 		c.Count("other-platforms:"+p[0], true, "stream:other-platforms", "other-platforms:"+p[0])
 	}
+}
+
+// c09Getter: a characteristic whose value the application supplies on demand (OnValueGet / OnValueRemoteGet — a sensor
+// that is read when asked). What the getter returns at the moment of the read is what the controller reads through
+// /characteristics, whatever the permissions of the characteristic are otherwise (sensors are read-only).
+func c09Getter(c *Ctx) {
+	type gcase struct {
+		name string
+		mk   func() *characteristic.Characteristic
+		vals []interface{}
+	}
+	cases := []gcase{
+		{"NewCurrentTemperature", func() *characteristic.Characteristic { return characteristic.NewCurrentTemperature().Characteristic }, []interface{}{21.5, 3.2, 36.6, 0.0} /* inside the declared range 0..100 */},
+		{"NewContactSensorState", func() *characteristic.Characteristic { return characteristic.NewContactSensorState().Characteristic }, []interface{}{1, 0, 1}},
+		{"NewMotionDetected", func() *characteristic.Characteristic { return characteristic.NewMotionDetected().Characteristic }, []interface{}{true, false, true}},
+		{"NewBrightness", func() *characteristic.Characteristic { return characteristic.NewBrightness().Characteristic }, []interface{}{40, 60, 0}},
+		{"NewSerialNumber", func() *characteristic.Characteristic { return characteristic.NewSerialNumber().Characteristic }, []interface{}{"SN-1", "SN-2 \"q\""}},
+	}
+	for i, gc := range cases {
+		id := fmt.Sprintf("getter#%s", gc.name)
+		if c.Skip(id) {
+			continue
+		}
+		ch := gc.mk()
+		acc := accessory.New(accessory.Info{Name: "G"}, accessory.TypeOther)
+		svc := service.New("F0" + fmt.Sprint(10+i))
+		svc.AddCharacteristic(ch)
+		acc.AddService(svc)
+		f, addr, err := verifiedFixture(c, []*accessory.Accessory{acc})
+		if err != nil {
+			c.Violate("C09 fixture cannot be built", id, nil, "fixture", err.Error())
+			continue
+		}
+		var cur interface{}
+		ch.OnValueGet(func() interface{} { return cur })
+		for _, v := range gc.vals {
+			cur = v
+			st, body, _, pm := f.Do(addr, "GET", fmt.Sprintf("/characteristics?id=%d.%d", acc.ID, ch.ID), "", nil)
+			es, ok := parseGetBody(body)
+			if pm != "" || st != 200 || !ok || len(es) != 1 || !es[0].hasVal || !jsonSame(es[0].Value, v) {
+				c.Violate("GET /characteristics does not return the value the application's getter supplies", id,
+					map[string]interface{}{"constructor": gc.name, "perms": ch.Perms, "getter_returns": fmt.Sprintf("%T %v", v, v)}, fmt.Sprint(v), fmt.Sprint(st, " ", trunc(string(body), 160), pm))
+				break
+			}
+		}
+		c.Count(id, true, "stream:getter", "getter:"+formatKind(ch.Format))
+		f.Close()
+	}
+}
+
+// c09AfterMalformed: a request that is refused (malformed id list, malformed body) must not leave anything behind: the
+// next requests — of this and of another controller — are answered as if it had never been sent.
+func c09AfterMalformed(c *Ctx) {
+	id := "after-malformed#0"
+	if c.Skip(id) {
+		return
+	}
+	sw := accessory.NewSwitch(accessory.Info{Name: "M"})
+	f, addr, err := verifiedFixture(c, []*accessory.Accessory{sw.Accessory})
+	if err != nil {
+		c.Violate("C09 fixture cannot be built", id, nil, "fixture", err.Error())
+		return
+	}
+	defer f.Close()
+	target := fmt.Sprintf("/characteristics?id=%d.%d", sw.Accessory.ID, sw.Switch.On.ID)
+	type step struct{ method, target, body string }
+	bad := []step{
+		{"GET", target + ",", ""}, {"GET", "/characteristics?id=1", ""}, {"GET", "/characteristics?id=" + strings.Repeat("1.", 3), ""},
+		{"PUT", "/characteristics", `{"characteristics":[{"aid":1`}, {"PUT", "/characteristics", `[]`},
+	}
+	for k, b := range bad {
+		f.Do(addr, b.method, b.target, "application/hap+json", []byte(b.body))
+		done := make(chan string, 1)
+		go func() {
+			sw.Switch.On.SetValue(k%2 == 0)
+			st, body, _, pm := f.Do(addr, "GET", target, "", nil)
+			es, ok := parseGetBody(body)
+			if pm != "" || st != 200 || !ok || len(es) != 1 || !jsonSame(es[0].Value, k%2 == 0) {
+				done <- fmt.Sprint(st, " ", trunc(string(body), 100), pm)
+				return
+			}
+			if st, _, _, pm := f.Do(addr, "GET", "/accessories", "", nil); st != 200 || pm != "" {
+				done <- fmt.Sprint("/accessories: ", st, pm)
+				return
+			}
+			done <- ""
+		}()
+		select {
+		case msg := <-done:
+			if msg != "" {
+				c.Violate("GET /characteristics does not return the value the application set", id, map[string]interface{}{"after_the_refused_request": b.method + " " + b.target + " " + b.body}, fmt.Sprint(k%2 == 0), msg)
+			}
+		case <-time.After(3 * time.Second):
+			c.Violate("after a refused request no further request is answered", id, map[string]interface{}{"refused_request": b.method + " " + b.target + " " + b.body}, "the next GET is answered", "no answer within 3 s")
+			return
+		}
+	}
+	c.Count(id, true, "stream:after-malformed")
 }
